@@ -14,7 +14,7 @@ import (
 // C21: histories of every AttrCache / DirCache operation on the real caches under the virtual clock,
 // and isChildOf on arbitrary byte strings.  Streams: C21 (AttrCache), C21dir (DirCache), C21child.
 func init() {
-	imp := "From Verif Require Import Model.Cache Corr.C21."
+	imp := "From Verif Require Import Model.Cache Corr.C21.\n" + pathPreamble()
 	Props["C21"] = &Prop{Imports: imp, Gen: genAttr, Corpus: corpusAttr, ShardSize: 100,
 		NonTrivial: func(c *Case) bool {
 			return c.Tags["hit"] > 0 && (c.Tags["eviction"] > 0 || c.Tags["expired_removed"] > 0 || c.Tags["neg_hit"] > 0)
@@ -23,7 +23,7 @@ func init() {
 		NonTrivial: func(c *Case) bool {
 			return c.Tags["hit"] > 0 && (c.Tags["eviction"] > 0 || c.Tags["expired_removed"] > 0)
 		}}
-	Props["C21child"] = &Prop{Imports: imp, Gen: genChild, Corpus: corpusChild, ShardSize: 2000,
+	Props["C21child"] = &Prop{Imports: imp, Gen: genChild, Corpus: corpusChild, ShardSize: 700,
 		NonTrivial: func(c *Case) bool { return true }}
 }
 
@@ -53,7 +53,7 @@ type aop struct {
 	adv  int64 // clock advance before the call
 	kind int
 	key  string
-	at   [7]uint64 // Mode, Size, FileId, Uid, Gid, mtime, atime
+	at   uint64    // number of the attribute block: genAttrs(at) = Corr.C21.mk_attrs at
 	n    int64     // Resize size / TTL ns
 	on   bool
 }
@@ -78,7 +78,35 @@ func scramble(x *absnfs.NFSAttrs) {
 	x.SetAtime(x.Atime().Add(time.Hour))
 }
 func cAttrs(a [7]uint64) string { return CNs(a[:]) }
-func cPath(p string) string     { return CBytes([]byte(p)) }
+
+// genAttrs mirrors Corr.C21.mk_attrs: Mode, Size, FileId, Uid, Gid, mtime ns, atime ns of block number i.
+func genAttrs(i uint64) [7]uint64 {
+	modes := []uint64{0o644, 0o755, 0o40755, 0o120777}
+	return [7]uint64{modes[i%4], i, 3*i + 1, i % 5, i % 7, 1000*i + 5, i + 9}
+}
+
+// every path of the alphabets gets a Coq name (a literal byte list costs Coq ~0.5 ms per byte)
+var pathNames = map[string]string{}
+
+func pathPreamble() string {
+	var b strings.Builder
+	all := append(append(append([]string{}, keyAlphabet...), dirAlphabet...), "/a/x")
+	for _, p := range all {
+		if _, ok := pathNames[p]; ok {
+			continue
+		}
+		name := fmt.Sprintf("k%d", len(pathNames))
+		pathNames[p] = name
+		fmt.Fprintf(&b, "Definition %s : path := %s. (* %q *)\n", name, CBytes([]byte(p)), p)
+	}
+	return b.String()
+}
+func cPath(p string) string {
+	if n, ok := pathNames[p]; ok {
+		return n
+	}
+	return CBytes([]byte(p))
+}
 func contains(xs []string, x string) bool {
 	for _, y := range xs {
 		if y == x {
@@ -93,7 +121,7 @@ func runAttr(ttl int64, max int, ops []aop, kind string) Case {
 	defer absnfs.VerifSetClock(0)
 	c := absnfs.NewAttrCache(time.Duration(ttl), max)
 	tags := map[string]int{"ops": len(ops)}
-	var coqOps, coqObs, txt []string
+	var steps, txt []string
 	iso := true
 	lastPut := map[string]int64{} // clock of the last Put/PutNegative per key, and the TTL then in force (for tags only)
 	lastTTL := map[string]int64{}
@@ -101,16 +129,16 @@ func runAttr(ttl int64, max int, ops []aop, kind string) Case {
 	for _, o := range ops {
 		absnfs.VerifAdvanceClock(o.adv)
 		now := absnfs.VerifClock()
+		off := now - baseClock
 		before := c.VerifKeys()
 		sizeBefore := c.Size()
-		res := "None"
 		var op, show string
 		switch o.kind {
 		case aPut:
-			in := mkAttrs(o.at)
+			in := mkAttrs(genAttrs(o.at))
 			c.Put(o.key, in)
 			scramble(in) // the cache must have stored a copy
-			op = fmt.Sprintf("APut %s %s", cPath(o.key), cAttrs(o.at))
+			op = fmt.Sprintf("P %d %s %d", off, cPath(o.key), o.at)
 			tags["put"]++
 			if !contains(before, o.key) && sizeBefore >= c.MaxSize() {
 				tags["eviction"]++
@@ -121,7 +149,7 @@ func runAttr(ttl int64, max int, ops []aop, kind string) Case {
 			lastPut[o.key], lastTTL[o.key] = now, curTTL
 		case aPutNeg:
 			c.PutNegative(o.key)
-			op = fmt.Sprintf("APutNegative %s", cPath(o.key))
+			op = fmt.Sprintf("PN %d %s", off, cPath(o.key))
 			tags["put_negative"]++
 			if negOn {
 				if !contains(before, o.key) && sizeBefore >= c.MaxSize() {
@@ -133,13 +161,17 @@ func runAttr(ttl int64, max int, ops []aop, kind string) Case {
 			}
 		case aGet:
 			a, found := c.Get(o.key)
-			op = fmt.Sprintf("AGet %s", cPath(o.key))
 			tags["get"]++
 			switch {
 			case found && a != nil:
 				got := rdAttrs(a)
-				res = fmt.Sprintf("(Some (Hit %s))", cAttrs(got))
-				show = fmt.Sprintf("hit%v", got)
+				if got == genAttrs(got[1]) {
+					op = fmt.Sprintf("GH %d %s %d", off, cPath(o.key), got[1])
+					show = fmt.Sprintf("hit#%d", got[1])
+				} else {
+					op = fmt.Sprintf("GX %d %s %s", off, cPath(o.key), cAttrs(got))
+					show = fmt.Sprintf("hit%v", got)
+				}
 				tags["hit"]++
 				scramble(a) // the caller owns the returned value
 				if (now+int64(len(o.key)))%3 == 0 {
@@ -149,11 +181,11 @@ func runAttr(ttl int64, max int, ops []aop, kind string) Case {
 					tags["copy_isolation_recheck"]++
 				}
 			case found:
-				res = "(Some NegHit)"
+				op = fmt.Sprintf("GN %d %s", off, cPath(o.key))
 				show = "neghit"
 				tags["neg_hit"]++
 			default:
-				res = "(Some Miss)"
+				op = fmt.Sprintf("GM %d %s", off, cPath(o.key))
 				show = "miss"
 				tags["miss"]++
 				if contains(before, o.key) {
@@ -171,26 +203,26 @@ func runAttr(ttl int64, max int, ops []aop, kind string) Case {
 			}
 		case aInv:
 			c.Invalidate(o.key)
-			op = fmt.Sprintf("AInvalidate %s", cPath(o.key))
+			op = fmt.Sprintf("IV %d %s", off, cPath(o.key))
 			tags["invalidate"]++
 		case aInvNegDir:
 			c.InvalidateNegativeInDir(o.key)
-			op = fmt.Sprintf("AInvalidateNegativeInDir %s", cPath(o.key))
+			op = fmt.Sprintf("ID %d %s", off, cPath(o.key))
 			tags["invalidate_negative_in_dir"]++
 			tags["neg_children_removed"] += sizeBefore - c.Size()
 		case aInvTree:
 			c.InvalidateTree(o.key)
-			op = fmt.Sprintf("AInvalidateTree %s", cPath(o.key))
+			op = fmt.Sprintf("IT %d %s", off, cPath(o.key))
 			tags["invalidate_tree"]++
 			tags["tree_removed"] += sizeBefore - c.Size()
 		case aResize:
 			c.Resize(int(o.n))
-			op = fmt.Sprintf("AResize %s", CZ(o.n))
+			op = fmt.Sprintf("RS %d %s", off, CZ(o.n))
 			tags["resize"]++
 			tags["resize_evicted"] += sizeBefore - c.Size()
 		case aUpdateTTL:
 			c.UpdateTTL(time.Duration(o.n))
-			op = fmt.Sprintf("AUpdateTTL %s", CZ(o.n))
+			op = fmt.Sprintf("UT %d %s", off, CZ(o.n))
 			tags["update_ttl"]++
 			curTTL = o.n
 			if o.n <= 0 {
@@ -198,11 +230,11 @@ func runAttr(ttl int64, max int, ops []aop, kind string) Case {
 			}
 		case aClear:
 			c.Clear()
-			op = "AClear"
+			op = fmt.Sprintf("CL %d", off)
 			tags["clear"]++
 		case aConfig:
 			c.ConfigureNegativeCaching(o.on, time.Duration(o.n))
-			op = fmt.Sprintf("AConfigureNegative %s %s", CBool(o.on), CZ(o.n))
+			op = fmt.Sprintf("CF %d %s %s", off, CBool(o.on), CZ(o.n))
 			tags["configure_negative"]++
 			negOn = o.on
 			if o.n > 0 {
@@ -217,15 +249,14 @@ func runAttr(ttl int64, max int, ops []aop, kind string) Case {
 			iso = false // map and access list out of step: reported through the same flag
 			tags["map_list_disagree"]++
 		}
-		coqOps = append(coqOps, fmt.Sprintf("(%d, %s)", now, op))
-		coqObs = append(coqObs, fmt.Sprintf("ao %s %d %d %d", res, c.Size(), c.MaxSize(), c.NegativeStats()))
+		steps = append(steps, fmt.Sprintf("%s %d %d %d", op, c.Size(), c.MaxSize(), c.NegativeStats()))
 		t := fmt.Sprintf("+%d %s", o.adv, textOp(o.kind, o.key, o.n, o.on))
 		if show != "" {
 			t += "->" + show
 		}
 		txt = append(txt, fmt.Sprintf("%s|n=%d", t, c.Size()))
 	}
-	coq := fmt.Sprintf("AttrCase %s %s %s %s %s", CZ(ttl), CZ(int64(max)), CList(coqOps), CList(coqObs), CBool(iso))
+	coq := fmt.Sprintf("AttrCase %s %s %s %s", CZ(ttl), CZ(int64(max)), CList(steps), CBool(iso))
 	return Case{Kind: kind, Coq: coq, Tags: tags,
 		Text: fmt.Sprintf("attr ttl=%dns max=%d: %s", ttl, max, strings.Join(txt, " "))}
 }
@@ -321,10 +352,7 @@ func genAttr(r *Rand, idx int, tier string) Case {
 		switch {
 		case x < 28:
 			o.kind = aPut
-			for i := range o.at {
-				o.at[i] = uint64(r.Intn(1000))
-			}
-			o.at[0] = uint64(PickInt(r, 0o644, 0o755, 0o40755, 0o120777))
+			o.at = uint64(r.Intn(1000))
 			exp[o.key] = now + curTTL
 			stored = append(stored, o.key)
 		case x < 28+negPct:
@@ -370,8 +398,7 @@ func genAttr(r *Rand, idx int, tier string) Case {
 }
 
 func corpusAttr() []Case {
-	A := func(i uint64) [7]uint64 { return [7]uint64{0o644, i, i + 1, 1000, 1000, 5, 6} }
-	put := func(adv int64, k string, i uint64) aop { return aop{adv: adv, kind: aPut, key: k, at: A(i)} }
+	put := func(adv int64, k string, i uint64) aop { return aop{adv: adv, kind: aPut, key: k, at: i} }
 	get := func(adv int64, k string) aop { return aop{adv: adv, kind: aGet, key: k} }
 	neg := func(k string) aop { return aop{kind: aPutNeg, key: k} }
 	cfg := func(on bool, n int64) aop { return aop{kind: aConfig, on: on, n: n} }
@@ -434,7 +461,7 @@ func runDir(timeout int64, maxEntries, maxDir int, ops []dop, kind string) Case 
 	defer absnfs.VerifSetClock(0)
 	c := absnfs.NewDirCache(time.Duration(timeout), maxEntries, maxDir)
 	tags := map[string]int{"ops": len(ops)}
-	var coqOps, coqObs, txt []string
+	var steps, txt []string
 	iso := true
 	effMaxDir := maxDir
 	if effMaxDir <= 0 {
@@ -449,9 +476,9 @@ func runDir(timeout int64, maxEntries, maxDir int, ops []dop, kind string) Case 
 	for _, o := range ops {
 		absnfs.VerifAdvanceClock(o.adv)
 		now := absnfs.VerifClock()
+		off := now - baseClock
 		before := c.VerifKeys()
 		sizeBefore := c.Size()
-		res := "None"
 		var op, show string
 		switch o.kind {
 		case dPut:
@@ -463,7 +490,7 @@ func runDir(timeout int64, maxEntries, maxDir int, ops []dop, kind string) Case 
 			for i := range in {
 				in[i] = fi{9999} // the cache must have stored a copy of the slice
 			}
-			op = fmt.Sprintf("DPut %s %s", cPath(o.key), CNs(o.ents))
+			op = fmt.Sprintf("DP %d %s %s", off, cPath(o.key), CNs(o.ents))
 			tags["put"]++
 			if len(o.ents) > effMaxDir {
 				tags["put_refused_too_large"]++
@@ -475,14 +502,13 @@ func runDir(timeout int64, maxEntries, maxDir int, ops []dop, kind string) Case 
 			}
 		case dGet:
 			es, found := c.Get(o.key)
-			op = fmt.Sprintf("DGet %s", cPath(o.key))
 			tags["get"]++
 			if found {
 				ids := make([]uint64, len(es))
 				for i, e := range es {
 					ids[i] = e.(fi).id
 				}
-				res = fmt.Sprintf("(Some (Some %s))", CNs(ids))
+				op = fmt.Sprintf("DG1 %d %s %s", off, cPath(o.key), CNs(ids))
 				show = fmt.Sprintf("hit%v", ids)
 				tags["hit"]++
 				for i := range es {
@@ -505,7 +531,7 @@ func runDir(timeout int64, maxEntries, maxDir int, ops []dop, kind string) Case 
 					tags["hit_at_expiry_instant"]++
 				}
 			} else {
-				res = "(Some None)"
+				op = fmt.Sprintf("DG0 %d %s", off, cPath(o.key))
 				show = "miss"
 				tags["miss"]++
 				if contains(before, o.key) {
@@ -520,21 +546,21 @@ func runDir(timeout int64, maxEntries, maxDir int, ops []dop, kind string) Case 
 			}
 		case dInv:
 			c.Invalidate(o.key)
-			op = fmt.Sprintf("DInvalidate %s", cPath(o.key))
+			op = fmt.Sprintf("DI %d %s", off, cPath(o.key))
 			tags["invalidate"]++
 		case dInvTree:
 			c.InvalidateTree(o.key)
-			op = fmt.Sprintf("DInvalidateTree %s", cPath(o.key))
+			op = fmt.Sprintf("DT %d %s", off, cPath(o.key))
 			tags["invalidate_tree"]++
 			tags["tree_removed"] += sizeBefore - c.Size()
 		case dResize:
 			c.Resize(int(o.n))
-			op = fmt.Sprintf("DResize %s", CZ(o.n))
+			op = fmt.Sprintf("DR %d %s", off, CZ(o.n))
 			tags["resize"]++
 			tags["resize_evicted"] += sizeBefore - c.Size()
 		case dUpdateTTL:
 			c.UpdateTTL(time.Duration(o.n))
-			op = fmt.Sprintf("DUpdateTTL %s", CZ(o.n))
+			op = fmt.Sprintf("DU %d %s", off, CZ(o.n))
 			tags["update_ttl"]++
 			cur = o.n
 			if cur <= 0 {
@@ -542,7 +568,7 @@ func runDir(timeout int64, maxEntries, maxDir int, ops []dop, kind string) Case 
 			}
 		case dClear:
 			c.Clear()
-			op = "DClear"
+			op = fmt.Sprintf("DC %d", off)
 			tags["clear"]++
 		}
 		ml, ll := c.VerifMapLen()
@@ -550,8 +576,7 @@ func runDir(timeout int64, maxEntries, maxDir int, ops []dop, kind string) Case 
 			iso = false
 			tags["map_list_disagree"]++
 		}
-		coqOps = append(coqOps, fmt.Sprintf("(%d, %s)", now, op))
-		coqObs = append(coqObs, fmt.Sprintf("dob %s %d %d", res, c.Size(), c.VerifMaxEntries()))
+		steps = append(steps, fmt.Sprintf("%s %d %d", op, c.Size(), c.VerifMaxEntries()))
 		t := fmt.Sprintf("+%d %s", o.adv, textOp(o.kind, o.key, o.n, false))
 		if o.kind == dPut {
 			t += fmt.Sprint(o.ents)
@@ -561,8 +586,8 @@ func runDir(timeout int64, maxEntries, maxDir int, ops []dop, kind string) Case 
 		}
 		txt = append(txt, fmt.Sprintf("%s|n=%d", t, c.Size()))
 	}
-	coq := fmt.Sprintf("DirCase %s %s %s %s %s %s", CZ(timeout), CZ(int64(maxEntries)), CZ(int64(maxDir)),
-		CList(coqOps), CList(coqObs), CBool(iso))
+	coq := fmt.Sprintf("DirCase %s %s %s %s %s", CZ(timeout), CZ(int64(maxEntries)), CZ(int64(maxDir)),
+		CList(steps), CBool(iso))
 	return Case{Kind: kind, Coq: coq, Tags: tags,
 		Text: fmt.Sprintf("dir timeout=%dns maxEntries=%d maxDirSize=%d: %s", timeout, maxEntries, maxDir, strings.Join(txt, " "))}
 }
